@@ -11,7 +11,7 @@ ASSUMPTIONS_COMMON = [
     'no assume()/admit() in any generated file (scanned on every run)',
 ]
 
-CLAIMED = ['C20']
+CLAIMED = ['C01', 'C06', 'C09', 'C14', 'C15', 'C20']
 
 INFO = {
  'C20': {
@@ -21,5 +21,17 @@ INFO = {
   'trusted': ['vstd specification of u32::try_from(usize)/try_into, wrapping_add, checked_add'],
  },
 }
+INFO.update({
+ 'C09': {'claim': 'PostAction algebra proved for all 16 pairs on the verbatim BitOr/BitOrAssign impls (a|b == a if a==b else Reregister; |= agrees).',
+         'not_covered': ['application of the post-action in EventLoop::dispatch_events (loop-global Cell behind &self)'], 'trusted': []},
+ 'C14': {'claim': 'The additional-lifecycle set stays duplicate-free and only ever gains the registering source\'s own token under every outcome of DispatcherInner::{register,reregister,unregister} (both values of the opaque needs_additional_lifecycle_events flag, both outcomes of try_borrow_mut, Ok and Err of the wrapped source).',
+         'not_covered': ['the before_sleep/before_handle_events loops of dispatch_events'], 'trusted': ['Vec::retain, slice::contains specs']},
+ 'C15': {'claim': 'Per-layer error frames: DispatcherInner::register leaves the lifecycle set unchanged on Err; vacant_entry hands out a vacant slot and frames all others.',
+         'not_covered': ['LoopHandle::register_dispatcher cleanup, Async::new'], 'trusted': []},
+ 'C01': {'claim': 'Generation-checked slot lookup (get/get_mut iff-contracts), generation bump on reuse, stale-token lemma, sub-token allocation.',
+         'not_covered': ['dispatch_events routing'], 'trusted': []},
+ 'C06': {'claim': 'Stale tokens are dead for fewer than 65536 reuses; get_mut/vacant_entry frame all other slots; unregister removes exactly the token.',
+         'not_covered': ['Rc release counts'], 'trusted': []},
+})
 for _p in ['C01','C02','C03','C04','C05','C06','C07','C08','C09','C10','C11','C12','C13','C14','C15','C16','C17','C18','C19']:
     INFO.setdefault(_p, {'claim': '', 'na_reason': 'not yet built'})
